@@ -26,7 +26,7 @@ func TestC02StoreLatency(t *testing.T) {
 	rec.Rule("slow store (virtual time): a client with one host peer sends 2-6 keep-alives with generated gaps while every NodePeers call of the store (made by the pool between stamping the check-in and billing) takes a generated latency L; oracle: the client's total charge never exceeds price x (time from its connect to the end of its last keep-alive) / interval - no stretch is charged twice; the known finding (each keep-alive bills up to a clock reading taken after the stamp that the next one starts from, i.e. L is charged twice per keep-alive) is recognised by its exact amount, confirmed and reported as KNOWN-FINDING while listed; any other excess is a violation; non-trivial = L > 0 and >= 2 keep-alives")
 	known := vt.Known("C02", c02LatencyKey)
 	confirmed := false
-	rapid.Check(t, func(rt *rapid.T) {
+	check(t, func(rt *rapid.T) {
 		rapid.SyncTest(rt, func(rt *rapid.T) {
 			price := int64(rapid.SampledFrom([]int{1000, 60000, 777777}).Draw(rt, "price"))
 			cfg := sessCfg{Driver: rapid.SampledFrom([]string{"memory", "badger"}).Draw(rt, "driver"), Price: big.NewInt(price), Interval: time.Minute, Yield: true}
